@@ -165,6 +165,73 @@ Theorem C13g_link_add_transition :
 Proof. exact link_add_transition. Qed.
 Print Assumptions C13g_link_add_transition.
 
+Theorem C13g_link_class_of_char_fuel :
+  forall (fuel : nat) (p : CharPartition) (x : N),
+       (length (CharPartition_list p) < fuel)%nat ->
+       option_map convc (M_CharPartition_class_of_char fuel p x) = pclass_of_char (convp p) x.
+Proof. exact link_class_of_char_fuel. Qed.
+Print Assumptions C13g_link_class_of_char_fuel.
+
+Theorem C13g_link_succ_loop_fuel :
+  forall (fuel : nat) (p : CharPartition),
+       (length (CharPartition_list p) < fuel)%nat ->
+       forall (l : list (CharSet * nat)) (r : list nat),
+       length r = length (CharPartition_list p) ->
+       succ_res (StateInConstruction_make_successor_loop1 fuel l p r) =
+       fold_left (succ_f (convp p)) (map convt l) (Some r).
+Proof. exact link_succ_loop_fuel. Qed.
+Print Assumptions C13g_link_succ_loop_fuel.
+
+Theorem C13g_link_make_successor_fuel :
+  forall (fuel : nat) (s : StateInConstruction) (p : CharPartition),
+       (length (CharPartition_list p) < fuel)%nat ->
+       M_StateInConstruction_make_successor fuel s p = make_successor (convs s) (convp p).
+Proof. exact link_make_successor_fuel. Qed.
+Print Assumptions C13g_link_make_successor_fuel.
+
+Theorem C13g_link_empty_complement :
+  forall p : CharPartition,
+       M_CharPartition_empty_complement p = Some (pempty_complement (convp p)).
+Proof. exact link_empty_complement. Qed.
+Print Assumptions C13g_link_empty_complement.
+
+Theorem C13g_link_build_loop :
+  forall (fuel : nat) (self : AutomatonBuilder) (l : list StateInConstruction) 
+         (i : nat) (acc : list StateInConstruction) (n : nat) (sa : list State),
+       Forall (state_ok fuel) l ->
+       loop_res (AutomatonBuilder_build_loop1 fuel (combine (seq i (length l)) l) self acc n sa) =
+       model_res n (map convst sa) (build_states_checked (map convs l) i).
+Proof. exact link_build_loop. Qed.
+Print Assumptions C13g_link_build_loop.
+
+Theorem C13g_link_build :
+  forall (fuel : nat) (b : AutomatonBuilder),
+       AutomatonBuilder_size b = length (AutomatonBuilder_states b) ->
+       Forall (state_ok fuel) (AutomatonBuilder_states b) ->
+       build_res (M_AutomatonBuilder_build fuel b) =
+       build {| id_map := []; bstates := convb_states b |}.
+Proof. exact link_build. Qed.
+Print Assumptions C13g_link_build.
+
+Theorem C13g_link_bu_loop :
+  forall (fuel : nat) (l : list StateInConstruction) (i : nat)
+         (acc : list StateInConstruction) (n : nat) (sa : list State),
+       Forall (state_ok fuel) l ->
+       bu_res (AutomatonBuilder_build_unchecked_loop1 fuel (combine (seq i (length l)) l) acc n sa) =
+       bu_model n (map convst sa) (build_states (map convs l) i).
+Proof. exact link_bu_loop. Qed.
+Print Assumptions C13g_link_bu_loop.
+
+Theorem C13g_link_build_unchecked :
+  forall (fuel : nat) (b : AutomatonBuilder),
+       AutomatonBuilder_size b = length (AutomatonBuilder_states b) ->
+       Forall (state_ok fuel) (AutomatonBuilder_states b) ->
+       option_map (fun r : AutomatonBuilder * Automaton => conva (snd r))
+         (M_AutomatonBuilder_build_unchecked fuel b) =
+       build_unchecked {| id_map := []; bstates := convb_states b |}.
+Proof. exact link_build_unchecked. Qed.
+Print Assumptions C13g_link_build_unchecked.
+
 (* ---- the per-state C13 statements on the translated code ---- *)
 
 Theorem C13g_cleanup_total :
@@ -262,3 +329,62 @@ Theorem C13g_example :
               {| CharSet_start := 21; CharSet_end := 196607 |}], 196608)).
 Proof. exact g_example. Qed.
 Print Assumptions C13g_example.
+
+Theorem C13g_build_spec :
+  forall (fuel : nat) (b : AutomatonBuilder),
+       builder_ok fuel b ->
+       match first_some sic_err (convb_states b) with
+       | Some e =>
+           exists (b' : AutomatonBuilder) (e' : Error),
+             M_AutomatonBuilder_build fuel b = Some (b', Err e') /\ conve e' = Some e
+       | None =>
+           exists (b' : AutomatonBuilder) (A : Automaton),
+             M_AutomatonBuilder_build fuel b = Some (b', Ok A) /\
+             Forall2 st_ok (convb_states b) (astates (conva A)) /\
+             num_states (conva A) = length (AutomatonBuilder_states b) /\
+             initial (conva A) = 0%nat /\
+             num_final (conva A) = length (filter a_final (astates (conva A)))
+       end.
+Proof. exact g_build_spec. Qed.
+Print Assumptions C13g_build_spec.
+
+Theorem C13g_build_never_panics :
+  forall (fuel : nat) (b : AutomatonBuilder),
+       builder_ok fuel b -> M_AutomatonBuilder_build fuel b <> None.
+Proof. exact g_build_never_panics. Qed.
+Print Assumptions C13g_build_never_panics.
+
+Theorem C13g_example_build :
+  let s0 :=
+         {|
+           StateInConstruction_is_final := false;
+           StateInConstruction_default_successor := None;
+           StateInConstruction_transitions :=
+             [({| CharSet_start := 0; CharSet_end := 96 |}, 1%nat);
+              ({| CharSet_start := 97; CharSet_end := 97 |}, 0%nat);
+              ({| CharSet_start := 98; CharSet_end := 196607 |}, 1%nat)]
+         |} in
+       let s1 :=
+         {|
+           StateInConstruction_is_final := true;
+           StateInConstruction_default_successor := Some 1%nat;
+           StateInConstruction_transitions := []
+         |} in
+       option_map
+         (fun r : AutomatonBuilder * result Automaton Error =>
+          match snd r with
+          | Ok a =>
+              Some
+                (Automaton_num_states a, Automaton_num_final_states a,
+                 map (fun st : State => (State_successor st, State_default_successor st))
+                   (Automaton_states a))
+          | Err _ => None
+          end)
+         (M_AutomatonBuilder_build 5
+            {|
+              AutomatonBuilder_size := 2;
+              AutomatonBuilder_id_map := tt;
+              AutomatonBuilder_states := [s0; s1]
+            |}) = Some (Some (2%nat, 1%nat, [([0%nat], Some 1%nat); ([], Some 1%nat)])).
+Proof. exact g_example_build. Qed.
+Print Assumptions C13g_example_build.
